@@ -187,6 +187,20 @@ def main():
                 neg(lambda: onp.all(make_vjp(fun, -1)(p, a, q, b, scale=s)[0](1.0) == gb)),
                 neg(lambda: onp.all(make_jvp(fun, -3)(p, a, q, b, scale=s)(onp.ones_like(a))[1] == onp.sum(ga))),
             ]
+            # the second-order and product operators with a non-default argnum (positional and by keyword)
+            vv_ = onp.ones_like(a) * 2.0 + a
+            hv_true = 2.0 * b * p * s * vv_
+            from autograd import hessian_vector_product as _hvp_, make_ggnvp as _ggn_
+            checks += [
+                onp.all(hessian_tensor_product(fun, 1)(p, a, q, b, vv_, scale=s) == hv_true),
+                onp.all(hessian_tensor_product(fun, argnum=1)(p, a, q, b, vv_, scale=s) == hv_true),
+                onp.all(_hvp_(fun, 1)(p, a, q, b, vv_, scale=s) == hv_true),
+                onp.all(make_hvp(fun, 1)(p, a, q, b, scale=s)[0](vv_) == hv_true),
+                onp.all(onp.tensordot(hessian(fun, 1)(p, a, q, b, scale=s), vv_, onp.ndim(a)) == hv_true),
+                onp.all(hessian_tensor_product(fun, 3)(p, a, q, b, vv_, scale=s) == 0.0 * b),
+                onp.all(tensor_jacobian_product(lambda p_, z, w: z * z * w, 1)(p, a, b, vv_) == 2.0 * a * b * vv_),
+                onp.all(_ggn_(lambda p_, z: z * p_, lambda y: anp.sum(y * y), 1)(p, a)(vv_) == 2.0 * p * p * vv_),
+            ]
             # one operator OBJECT applied at several points / extra arguments: whatever an earlier application returned
             # keeps belonging to ITS arguments, also when it is evaluated after the later applications
             op_j, op_v = make_jvp(fun, 1), make_vjp(fun, 3)
